@@ -869,6 +869,121 @@ fn scenario<F: Sc>(em: &mut Em, rng: &mut Rng, rows: &[Vec<f64>], d: usize, latt
     }
 }
 
+/// Open finding C07-l2-squared-distance-range (oracle only).  `L2Dist` compares SQUARED distances
+/// (`rdistance`, `dist_to_rdist = d^2`); for finite coordinates whose differences are beyond
+/// 2^64 (f32) / 2^512 (f64) the squares are +inf, below 2^-75 / 2^-537 they are 0, although every
+/// distance and the radius are representable.  Then all reduced distances tie, `rdist < r^2` is
+/// `inf < inf` or `0 < 0`, and every kind misses points strictly inside the radius / returns
+/// arbitrary "nearest" points; the ball tree returns no point at all for k nearest (`inf < inf`
+/// against `max_radius = inf`).  The stream consists of such inputs only; every failure of the
+/// statement on it is reported under the one clause `reduced_distance_in_range`.
+fn edge_case<F: Sc>(em: &mut Em, s: &Setup<F>, kind: Kind, q: &[F], what: Q<F>) {
+    let op = match what {
+        Q::Knn(k) => format!("#edge knn {} kind={} q={} k={}", s.head(), kind.name(), list(q.iter().copied(), |x: F| x.hx()), k),
+        Q::Range(r) => format!("#edge range {} kind={} q={} r={}", s.head(), kind.name(), list(q.iter().copied(), |x: F| x.hx()), r.hx()),
+    };
+    em.count(&format!("edge:{}", s.tag));
+    em.case(op, move |ctx| {
+        let cls = format!("l2:{}:{}", s.tag, kind.name());
+        let n = s.n();
+        let r = std::panic::catch_unwind(std::panic::AssertUnwindSafe(|| run_real(s, kind, q, false, what)));
+        let out = match r {
+            Ok((Ok(out), ..)) => out,
+            Ok((Err(e), ..)) => {
+                ctx.fail("no_error_on_valid", &cls, format!("well-formed build/query answered {}", e));
+                return String::new();
+            }
+            Err(_) => {
+                ctx.fail("no_panic", &cls, "panic on finite coordinates".to_string());
+                return String::new();
+            }
+        };
+        let qw: Vec<f64> = q.iter().map(|x| x.wide()).collect();
+        let own_all: Vec<f64> = s.pts.rows().into_iter().map(|r| own_dist(s.met, &qw, &wide_row(r))).collect();
+        let pos: Vec<usize> = out.iter().map(|(_, _, p)| *p).collect();
+        if pos.iter().any(|p| *p >= n) {
+            ctx.fail("coords_position", &cls, format!("position out of range in {:?}", pos));
+            return String::new();
+        }
+        let close = |a: f64, b: f64| (a - b).abs() <= s.tol * a.abs().max(b.abs());
+        let mut bad: Vec<String> = vec![];
+        match what {
+            Q::Knn(k) => {
+                if out.len() != k.min(n) {
+                    bad.push(format!("{} points returned, min(k,n) = {}", out.len(), k.min(n)));
+                }
+                let mut want = own_all.clone();
+                want.sort_by(|a, b| a.partial_cmp(b).unwrap());
+                want.truncate(k.min(n));
+                let got: Vec<f64> = pos.iter().map(|p| own_all[*p]).collect();
+                if !got.windows(2).all(|w| w[0] <= w[1] || close(w[0], w[1])) {
+                    bad.push(format!("distances not ascending: {:?}", got));
+                }
+                let mut gs = got.clone();
+                gs.sort_by(|a, b| a.partial_cmp(b).unwrap());
+                if gs.len() == want.len() && !gs.iter().zip(&want).all(|(a, b)| a == b || close(*a, *b)) {
+                    bad.push(format!("returned distances {:?}, true k nearest {:?}", gs, want));
+                }
+            }
+            Q::Range(r) => {
+                let rw = r.wide();
+                for i in 0..n {
+                    let d = own_all[i];
+                    if d < rw && !close(d, rw) && !pos.contains(&i) {
+                        bad.push(format!("row {} at distance {:e} < radius {:e} missing", i, d, rw));
+                    }
+                    if d > rw && !close(d, rw) && pos.contains(&i) {
+                        bad.push(format!("row {} at distance {:e} > radius {:e} returned", i, d, rw));
+                    }
+                }
+            }
+        }
+        if !bad.is_empty() {
+            ctx.fail("reduced_distance_in_range", &cls, bad.join("; "));
+        }
+        String::new()
+    });
+}
+
+/// inputs of `edge_case`: a small integer lattice scaled by 2^e with e beyond the range in which the
+/// square of a coordinate difference is a finite normal number
+fn edge_stream(em: &mut Em, rng: &mut Rng) {
+    fn go<F: Sc>(em: &mut Em, rng: &mut Rng, e: i32, tag: &'static str) {
+        let d = 1 + rng.below(3);
+        let n = 2 + rng.below(7);
+        let sc = pow2(e);
+        let pts: Array2<F> = Array2::from_shape_fn((n, d), |_| F::from64(rng.range(-3, 3) as f64 * sc));
+        let s = Setup { pts, met: Met::L2, leaf: 1 + rng.below(3), tol: 1e-6, tag, lay: Lay::C, default_form: false };
+        let q: Vec<F> = (0..d).map(|_| F::from64(rng.range(-4, 4) as f64 * sc)).collect();
+        let k = 1 + rng.below(n);
+        let r = F::from64((0.5 + rng.below(6) as f64) * sc);
+        for kind in KINDS {
+            edge_case(em, &s, kind, &q, Q::Knn(k));
+            edge_case(em, &s, kind, &q, Q::Range(r));
+        }
+    }
+    // the witness of the finding: 1-d points 1,2,3 (x 2^64, f32), query 0, radius 1.5 x 2^64
+    {
+        let sc = pow2(64);
+        let pts: Array2<f32> = Array2::from_shape_vec((3, 1), vec![sc as f32, (2.0 * sc) as f32, (3.0 * sc) as f32]).unwrap();
+        let s = Setup { pts, met: Met::L2, leaf: 2, tol: 1e-6, tag: "overflow", lay: Lay::C, default_form: false };
+        for kind in KINDS {
+            edge_case(em, &s, kind, &[0.0f32], Q::Range((1.5 * sc) as f32));
+            edge_case(em, &s, kind, &[0.0f32], Q::Knn(1));
+        }
+    }
+    let rounds = if em.thorough() { 40 } else { 8 };
+    for _ in 0..rounds {
+        let j = rng.below(8) as i32;
+        match rng.below(4) {
+            0 => go::<f32>(em, rng, 64 + j, "overflow"),
+            1 => go::<f64>(em, rng, 512 + j, "overflow"),
+            2 => go::<f32>(em, rng, -76 - j, "underflow"),
+            _ => go::<f64>(em, rng, -540 - j, "underflow"),
+        }
+    }
+}
+
 /// fixed witnesses of the repaired defects (run first on every run)
 fn corpus(em: &mut Em) {
     // ball tree, k = 0 on a non-empty index
@@ -928,4 +1043,5 @@ pub fn run(em: &mut Em, rng: &mut Rng) {
             scenario::<f64>(em, rng, &rows, d, lattice, tag, met, malformed);
         }
     }
+    edge_stream(em, rng);
 }
